@@ -227,3 +227,35 @@ PLAN["C11"] = {
     "thorough": [("rel", "c11.tree.d6"), ("rel", "c11.tree.seeded.d4"), ("rel", "c11.fa.d7"), ("asan", "c11.tree.d4"), ("asan", "c11.fa.d5")],
     "require": {"all": ["transitions_into_sharing_states"]},
 }
+
+PLAN["C07"] = {
+    "level": "exploration",
+    "rule": "every ordered pair (A,B) of TA(n,Sigma,<=k per side) (and, to reach 3 states, of TRIMMED automata only: inclusion trims its operands first, so every pair is language-equivalent "
+            "to a trimmed pair), serialised to Timbuk text and loaded into BDDTopDownTreeAut and BDDBottomUpTreeAut: top-down down-rec with/without implication cache, without simulation (raw "
+            "operands) and with the simulation the library itself computes (bottom-up downward simulation of the prepared union, automata inverted by GetTopDownAut); bottom-up up-nosim, the "
+            "default overload, down-rec-sim, and up-sim with the identity relation on prepared operands; each verdict vs the reference subset construction and vs the explicit encoding; all "
+            "other 120+ flag combinations must throw; non-trivial = both languages non-empty and A != B",
+    "assumptions": COMMON_ASSUMPTIONS + ["16-bit symbol encoding: the domains use at most 4 symbols"],
+    "claim": "Every pair of the finite domains through every implemented BDD inclusion selection in both encodings; exhaustive within bounds.",
+    "technique": "bounded exhaustive enumeration of automata pairs x BDD encodings x InclParam configurations against a reference subset construction",
+    "quick": [("rel", "c07.unimpl"), ("rel", "c07.n2s2k2"), ("rel", "c07.n2s3k2"), ("rel", "c07.trim.n2s2.a3b3"), ("rel", "c07.trim.n3s2.a2b3")],
+    "thorough": [("rel", "c07.unimpl"), ("rel", "c07.n2s2k3"), ("rel", "c07.n2s3k2"), ("rel", "c07.trim.n2s2.a4b4"), ("rel", "c07.trim.n3s2.a3b3"), ("rel", "c07.trim.n3s2.a3b4"), ("rel", "c07.trim.n2s3.a4b4")],
+    "require": {"all": ["expect_included", "expect_not_included", "nonemptyA_included", "class_binary_rules_both_trimmed", "unimpl_calls"]},
+}
+
+PLAN["C08"] = {
+    "level": "model_checking", "engine": "E-HIST",
+    "rule": "single calls (exhaustive enumeration): every automaton / ordered pair of TA(2..3,Sigma,<=k) loaded from Timbuk text into both BDD encodings: dump(load(A)) denotes L(A); Union (with/without "
+            "maps), UnionDisjointStates (operands loaded with disjoint numbers), Intersection (with/without map), RemoveUnreachableStates, RemoveUselessStates (no useless state or rule left in the "
+            "dump), copy/assign, GetTopDownAut are language-exact and leave the operands' languages unchanged. Histories (breadth-first search): 3 slots per encoding, menu of 123 operations: load of "
+            "4 fixed automata (two pairs with overlapping state numbers), LoadFromString INTO a live automaton, copy, assign, destroy, Union, UnionDisjointStates (only when the reference says the "
+            "state sets are disjoint), Intersection, RemoveUnreachableStates, RemoveUselessStates (results may overwrite an operand), GetTopDownAut; in every state the dump of every live slot "
+            "must denote the language of the slot's reference value; the state key contains final states, the identity of every transition table and the FULL content of every distinct table "
+            "(tuple/state -> MTBDD paths, read with -fno-access-control), so junk left in a shared table is part of the state",
+    "assumptions": HIST_ASSUMPTIONS + ["the process-wide symbolic alphabet is pre-registered in a fixed order (a, b, g) once per worker so that symbol codes, and with them the state keys, do not depend on earlier cases"],
+    "claim": "All operation histories up to the stated depth over BDD automata that share transition tables, plus exhaustive single calls over the finite domains.",
+    "technique": "explicit-state breadth-first search over operation histories of BDD automata sharing transition tables + bounded exhaustive enumeration of single calls",
+    "quick": [("rel", "c08.single.n2s2k3"), ("rel", "c08.single.n3s3pk3"), ("rel", "c08.pairs.n2s2k2"), ("rel", "c08.hist.bu.d4"), ("rel", "c08.hist.td.d4")],
+    "thorough": [("rel", "c08.single.n2s3k4"), ("rel", "c08.single.n3s3pk3"), ("rel", "c08.pairs.n2s2k3"), ("rel", "c08.pairs.n2s3k2"), ("rel", "c08.hist.bu.d5"), ("rel", "c08.hist.td.d5"), ("asan", "c08.hist.bu.d3"), ("asan", "c08.hist.td.d3")],
+    "require": {"all": ["transitions_into_sharing_states", "intersection_nonempty", "class_useless_states", "lang_nonempty"]},
+}
